@@ -1561,10 +1561,21 @@ class WcParse(Generic[AnyStr]):
                 if count > 0 and count % 2:
                     i.rewind(1)
             else:
-                c = '/'
-                while c == '/':
+                while True:
                     c = next(i)
-                i.rewind(1)
+                    if c == '/':
+                        continue
+                    if c == '\\':
+                        # An escaped slash (`\/`) is a separator as well
+                        try:
+                            if next(i) == '/':
+                                continue
+                        except StopIteration:
+                            i.rewind(1)
+                            raise
+                        i.rewind(1)
+                    i.rewind(1)
+                    break
         except StopIteration:
             pass
 
